@@ -429,6 +429,14 @@ func Main(args []string) {
 			rep.Infra = err.Error()
 			return
 		}
+		if strings.HasPrefix(cas.A, "handlers: ") {
+			for _, hp := range hpairs() {
+				if "handlers: "+hp.name == cas.A {
+					replayH(args[1], hp, cas, rep)
+				}
+			}
+			return
+		}
 		var a, b *op
 		for i := range all {
 			if all[i].name == cas.A {
@@ -490,6 +498,23 @@ func Main(args []string) {
 			if rep.Infra != "" {
 				return
 			}
+		}
+	}
+	for _, hp := range hpairs() {
+		if !strings.Contains(hp.props, prop) {
+			continue
+		}
+		n++
+		if parts > 1 && n%parts != part {
+			continue
+		}
+		bound := 1
+		if thorough {
+			bound = 2
+		}
+		exploreHPair(scratch, hp, bound, rep, deadline)
+		if rep.Infra != "" {
+			return
 		}
 	}
 }
